@@ -332,6 +332,12 @@ def finish(prop, tier, seed, res, t0):
               % (prop, res.evaluations, res.min_evaluations, len(res.nontrivial), res.min_nontrivial,
                  res.inconclusive, res.inconclusive_why))
         return 2
+    nsc = getattr(res, "scenarios", 0)
+    if nsc >= 10 and res.inconclusive * 5 > nsc:
+        # three-valued verdict: when more than a fifth of the scenarios could not be judged (a program died, the setup
+        # failed, a watchdog fired) the rest does not carry a "held"
+        print("INCONCLUSIVE property=%s %d of %d scenarios could not be judged: %s" % (prop, res.inconclusive, nsc, res.inconclusive_why))
+        return 2
     print("HELD property=%s tier=%s seed=%d evaluations=%d distinct_nontrivial=%d inconclusive=%d wall=%.1fs"
           % (prop, tier, seed, res.evaluations, len(res.nontrivial), res.inconclusive, time.time() - t0))
     return 0
